@@ -1,7 +1,7 @@
 (* C12: the hypotheses of the exact-arithmetic theorems bundled in one record, the theorems restated against it
    (these are the statements PropsC12.v exposes), and the full-strength statement C12_full. *)
 From Coq Require Import List Bool Arith Lia Ring Field.
-From Core Require Import C12_Ops C12_Model C12_Contract C12_Krylov C12_Run.
+From Core Require Import C12_Ops C12_Model C12_Contract C12_Krylov C12_Run C12_Homog.
 Import ListNotations.
 
 (* a field with involution, a vector type with an inner product obeying the weak (scalar) laws, a Hermitian
@@ -52,6 +52,12 @@ Proof. intros [H1 H2] Hreg H0 Hxs k c Hk. destruct L.
   exact (cg_pythagoras o vo l_field0 l_conj_add0 l_conj_mul0 l_conj_opp0 l_conj_div0 A P l_dot_add_r0 l_dot_sub_r0 l_dot_scale_r0
            l_dot_sym0 l_A_sa0 l_P_sa0 c0 H1 H2 K Hreg bn H0 xs Hxs k c Hk). Qed.
 
+Theorem span_is_krylov_b c0 K : started c0 -> no_breakdown c0 K -> forall k v, k <= S K ->
+  (Sp o vo (kgen A P c0) k v <-> Sp o vo (pgen o vo A P c0) k v).
+Proof. intros [H1 H2] Hreg k v Hk. destruct L. split.
+  - eapply (krylov_in_span o vo); eauto.
+  - eapply (span_in_krylov o vo); eauto. Qed.
+
 Theorem cg_run_optimal_b (flag : bool) (tol : T) (max_iters : nat) (bs x0s : list V) : forall j b x0,
   nth_error bs j = Some b -> nth_error x0s j = Some x0 ->
   let r := run_cg o vo A P flag tol max_iters bs x0s in
@@ -66,23 +72,37 @@ Proof. intros j b x0 Hb Hx r c0 Hreg xs Hxs. destruct L.
   eapply (cg_run_optimal o vo); eauto. Qed.
 End Bundled.
 
-(* ---------------------------------------------------------------- the full-strength statement *)
-Section Full.
-Context {T V : Type} (o : ops T) (vo : vops T V) (A P : V -> V).
-(* the preconditioned Krylov space K_k(PA, v): combinations sum_{i<k} c_i (PA)^i v *)
-Fixpoint kpow (i : nat) (v : V) : V := match i with 0 => v | S i' => P (A (kpow i' v)) end.
-Fixpoint kry (k : nat) (c : nat -> T) (v : V) : V :=
-  match k with 0 => vscale vo (o0 o) v | S k' => vadd vo (kry k' c v) (vscale vo (c k') (kpow k' v)) end.
-End Full.
+(* exact module laws used by the homogeneity theorem (vector equalities; true of lists over a commutative field) *)
+Record module_laws {T V : Type} (o : ops T) (vo : vops T V) (A P : V -> V) : Prop := mk_module_laws {
+  m_field : field_theory (o0 o) (o1 o) (oadd o) (omul o) (osub o) (oopp o) (odiv o) (fun x => odiv o (o1 o) x) eq;
+  m_add : forall u a b, vscale vo u (vadd vo a b) = vadd vo (vscale vo u a) (vscale vo u b);
+  m_sub : forall u a b, vscale vo u (vsub vo a b) = vsub vo (vscale vo u a) (vscale vo u b);
+  m_assoc : forall a b v, vscale vo a (vscale vo b v) = vscale vo (omul o a b) v;
+  m_div : forall v c, vdivs vo v c = vscale vo (odiv o (o1 o) c) v;
+  m_A : forall u v, A (vscale vo u v) = vscale vo u (A v);
+  m_P : forall u v, P (vscale vo u v) = vscale vo u (P v);
+  m_dot : forall u a b, vdot vo (vscale vo u a) (vscale vo u b) = omul o (omul o (oconj o u) u) (vdot vo a b) }.
 
-(* Everything the property states, for the model with the defect flag cleared:
-   (1) contract, bookkeeping and exit condition            - proved: cg_contract (any instance, any flag)
-   (2) zero right-hand side                                - proved: cg_zero_rhs
-   (3) per column, without breakdown, the returned vector is ||b|| * x_k with x_k in  x0/||b|| + K_k(PA, P r0)
-       and x_k minimises the A-norm of the error over that affine Krylov space
-                                                            - proved over x0 + span{p_i}: cg_run_optimal_b;
-                                                              span{p_i} = K_k: see cg_krylov_* in C12_KrylovSpace.v
-   (4) homogeneity in b for x0 = 0                          - see C12_Homog.v *)
+(* cg(alpha * B) = alpha * cg(B) for x0 = 0 (x0 "zero-like": invariant under scaling), alpha = a * u with a = |alpha| <> 0
+   and u a unit phase; the 1e-40 guards on ||b|| inactive for both runs (part of [good_col]) *)
+Theorem cg_homogeneous_b {T V : Type} (o : ops T) (vo : vops T V) (A P : V -> V) : module_laws o vo A P ->
+  forall u alpha a : T, omul o (oconj o u) u = o1 o -> a <> o0 o -> u = odiv o alpha a ->
+  forall (flag : bool) (tol : T) (max_iters : nat) (bs x0s : list V),
+  (forall b x0, In (b, x0) (combine bs x0s) -> good_col o vo alpha a b x0) ->
+  let r := run_cg o vo A P flag tol max_iters bs x0s in
+  let r' := run_cg o vo A P flag tol max_iters (map (vscale vo alpha) bs) x0s in
+  sol r' = map (vscale vo alpha) (sol r) /\ steps r' = steps r /\ iterations r' = iterations r /\ errors r' = errors r.
+Proof. intros L u alpha a Hu Ha Hua flag tol max_iters bs x0s Hg. destruct L.
+  eapply (cg_homogeneous o vo); eauto. Qed.
+
+(* ---------------------------------------------------------------- the full-strength statement *)
+(* Everything the property states about the iterate, for the model with the defect flag cleared: for every column,
+   without breakdown, the returned vector is ||b|| * x_k, where x_k lies in  x0/||b|| + K_k(PA, P r0)  (the
+   preconditioned Krylov space of the normalised system, k = steps) and minimises the A-norm of the error over that
+   affine space ([Sp o vo (kgen A P c0) k] = K_k as a weakly closed span; [Pos] = "is a non-negative real").
+   Multiplying by ||b|| gives the statement for the original system: x0 + K_k(PA, P (b - A x0)).
+   The other clauses (contract, bookkeeping, zero right-hand side, homogeneity) are cg_contract, cg_zero_rhs and
+   cg_homogeneous_b. *)
 Definition C12_full : Prop :=
   forall (T V : Type) (o : ops T) (vo : vops T V) (A P : V -> V), ips_laws o vo A P ->
   forall (tol : T) (max_iters : nat) (bs x0s : list V) j b x0,
@@ -92,6 +112,10 @@ Definition C12_full : Prop :=
   no_breakdown o vo A P c0 (steps r) ->
   forall xs, (forall u, vdot vo u (A xs) = vdot vo u (safe_vdiv o vo b (vnorm o vo b))) ->
   exists xk, nth_error (sol r) j = Some (vscale vo (cmult c0) xk) /\
-    (exists c, forall u, vdot vo u xk = vdot vo u (vadd vo (cx c0) (kry o vo A P (steps r) c (cp c0)))) /\
+    (exists v, Sp o vo (kgen A P c0) (steps r) v /\ weq vo xk (vadd vo (cx c0) v)) /\
     forall (Pos : T -> Prop), (forall v, Pos (vdot vo v (A v))) ->
-      forall c, Pos (osub o (phi vo A xs (vadd vo (cx c0) (kry o vo A P (steps r) c (cp c0)))) (phi vo A xs xk)).
+      forall v, Sp o vo (kgen A P c0) (steps r) v -> Pos (osub o (phi vo A xs (vadd vo (cx c0) v)) (phi vo A xs xk)).
+
+Theorem C12_full_proved : C12_full.
+Proof. intros T V o vo A P L tol max_iters bs x0s j b x0 Hb Hx r c0 Hreg xs Hxs. destruct L.
+  eapply (cg_run_optimal_krylov o vo); eauto. Qed.
